@@ -360,6 +360,7 @@ class FX:
         self.numeric = set()
         self.localdefs = {}
         self.known_locals = _known_locals()
+        self.attr_alias = {}
         self._params_seen = set()
         self.assigns = []
         self.trans = []
@@ -401,6 +402,7 @@ class FX:
                 env.update(bind)
             r = self._run_function(fn, env)
             self.returns.append(r)
+        self._attr_names(entries)
         self._dealias_new_intermediates(ctx)
         self._one_bit_compares()
         self._resolve_ir_renames(ctx, entries)
@@ -481,6 +483,44 @@ class FX:
         for nm in subst:
             self.decl.pop(nm, None)
             ctx.note(f"{self.rel}::{self.scope}: new 1-bit intermediate `{nm}` = {norm(subst[nm].value)[:80]} substituted where it is read")
+
+    def _attr_names(self, entries):
+        """`x = Signal(..); self.x = x` names the same object as `self.x = x = Signal(..)`: the attribute path is the canonical name
+        (rules address public signals by their attribute)."""
+        if RECORD_IR is not None or os.environ.get("LXS_NO_RENAME"):
+            return
+        key = f"{self.rel}::{self.scope}::{','.join(entries) if self.cls_name else ''}"
+        pinned = _irtable().get(key)
+        if not pinned:
+            return
+        # only for locals the pinned tree does not have (there the object was bound to the attribute directly)
+        mp = {loc: path for loc, path in self.attr_alias.items() if loc in self.decl and path not in self.decl and loc not in pinned}
+        if not mp:
+            return
+        rep = {loc: ast.parse(path, mode="eval").body for loc, path in mp.items()}
+
+        class X(ast.NodeTransformer):
+            def visit_Name(self, n):
+                return copy.deepcopy(rep[n.id]) if n.id in rep else n
+
+        def sub(e):
+            return X().visit(e) if isinstance(e, ast.AST) else e
+        for a in self.assigns:
+            a.target, a.value = sub(a.target), sub(a.value)
+            a.guards = [(sub(c), p) for c, p in a.guards]
+            a._t = a._v = None
+        for t in self.trans:
+            t.guards = [(sub(c), p) for c, p in t.guards]
+        for c in self.conns:
+            c["conn"].src, c["conn"].dst = sub(c["conn"].src), sub(c["conn"].dst)
+            c["guards"] = [(sub(g), p) for g, p in c["guards"]]
+        for i in self.insts:
+            if i.call is not None:
+                i.call = sub(i.call)
+            if i.name in mp:
+                i.name = mp[i.name]
+        for loc, path in mp.items():
+            self.decl[path] = self.decl.pop(loc)
 
     def _one_bit_compares(self):
         """`s == 0` / `s != 1` on a signal declared 1 bit wide reads as `~s`, `s == 1` / `s != 0` as `s` (Migen gives the same
@@ -1407,6 +1447,9 @@ class FX:
                 self.attr["self." + t.attr] = val
                 return
             self.attr[key] = val
+            if isinstance(val, ast.Name) and val.id in self.decl and key.startswith("self.") and key not in self.decl and \
+                    not isinstance(env.get("self"), ast.AST):
+                self.attr_alias.setdefault(val.id, key)      # x = Signal(); self.x = x : the object is known by its attribute name
         elif isinstance(t, ast.Subscript):
             cont = self._value(t.value, env)
             if isinstance(cont, PyDict):
